@@ -129,55 +129,31 @@ theorem C08_binary (sep : Option Bytes) (term : Bytes) (items : List (Bytes × B
 
 /-! ### the `--stats` trailer -/
 
-/-- Full statement: the trailer follows the blocks directly in both drivers (separators only between blocks). -/
-def C08_stats_full : Prop :=
-  ∀ (sep : Option Bytes) (bufs : List Bytes) (trailer : Bytes),
-    outParStats sep bufs trailer = joinSep (sepLine sep [10]) (nonempty bufs) ++ trailer
-
-/-- It fails on the current tree (known finding `stats-trailer-separated-like-a-block-multithreaded`):
-`rg -j2 --heading --stats` writes the blank separator line between the last block and the trailer
-(`-C1`: a `--` line); `-j1` does not. -/
-theorem C08_stats_full_fails : ¬ C08_stats_full := by
-  intro h
-  have := h (some [45, 45]) [[97, 10]] [10, 49, 10]
-  revert this
-  decide
-
-/-- **Proved part** (guard: no file separator configured, or nothing was printed before the trailer): the
-multi-threaded trailer follows the blocks directly, as single-threaded. -/
-theorem C08_stats_partial (sep : Option Bytes) (bufs : List Bytes) (trailer : Bytes)
-    (hg : sep = none ∨ nonempty bufs = []) :
+/-- **The trailer follows the blocks directly in both drivers**: separators appear only between blocks, never
+between the last block and the statistics (since 78b4250; the multi-threaded driver used to hand the trailer
+to the buffer writer like a block). -/
+theorem C08_stats (sep : Option Bytes) (bufs : List Bytes) (trailer : Bytes) :
     outParStats sep bufs trailer = joinSep (sepLine sep [10]) (nonempty bufs) ++ trailer := by
   unfold outParStats
   rw [par_output]
-  have hne : nonempty (bufs ++ [trailer]) = nonempty bufs ++ nonempty [trailer] := by
-    simp [nonempty, List.filter_append]
-  rw [hne]
-  rcases hg with h | h
-  · subst h
-    -- without a separator, joining is concatenation
-    have hj : ∀ (bs : List Bytes), joinSep (sepLine none [10]) bs = bs.flatten := by
-      intro bs
-      induction bs with
-      | nil => rfl
-      | cons b rest ih =>
-        cases rest with
-        | nil => simp [joinSep]
-        | cons c rest' => simp only [joinSep, sepLine, List.append_nil] at ih ⊢; rw [ih]; simp
-    rw [hj, hj]
-    cases ht : trailer with
-    | nil => simp [nonempty]
-    | cons x xs => simp [nonempty]
-  · rw [h]
-    cases ht : trailer with
-    | nil => simp [nonempty, joinSep]
-    | cons x xs => simp [nonempty, joinSep]
 
-/-- Single-threaded, the trailer always follows the blocks directly. -/
+/-- Single-threaded, likewise. -/
 theorem seq_stats (sep : Option Bytes) (term : Bytes) (blks : List Bytes) (trailer : Bytes) :
     outSeqStats sep term blks trailer = joinSep (sepLine sep term) (nonempty blks) ++ trailer := by
   unfold outSeqStats
   rw [seq_output]
+
+/-- Hence, where the separator lines agree (guard of `C08`), the two drivers' outputs with `--stats` differ only
+in the order of the blocks. -/
+theorem C08_stats_agree (sep : Option Bytes) (term : Bytes) (blks : List Bytes) (trailer : Bytes)
+    (h : sepLine sep term = sepLine sep [10]) :
+    outParStats sep blks trailer = outSeqStats sep term blks trailer := by
+  rw [C08_stats, seq_stats, h]
+
+/-- The old behaviour (the trailer as one more buffer) is not this: the revert of 78b4250 is told apart. -/
+theorem stats_through_buffer_writer_differs :
+    outPar (some [45, 45]) ([[97, 10]] ++ [[10, 49, 10]]) ≠ outParStats (some [45, 45]) [[97, 10]] [10, 49, 10] := by
+  decide
 
 /-! ### the block grammar parses uniquely -/
 
